@@ -39,7 +39,7 @@ def monitored_sectors():
     import glob
     import re
     names = set()
-    for f in sorted(glob.glob(os.path.join(build.REPO, "src", "MSSMNoFV", "*.cpp"))):
+    for f in sorted(glob.glob(os.path.join(build.REPO, "src", "MSSMNoFV", "*.cpp")) + glob.glob(os.path.join(build.REPO, "src", "THDM", "*.cpp"))):
         names.update(re.findall(r'flag_tachyon\(\s*"(\w+)"\s*\)', open(f, encoding="latin-1").read()))
     return names
 
@@ -399,17 +399,17 @@ def judge(c, o):
     # ---- a tachyon defect must be reported for its own sector --------------------
     if dset and all(d.kind == "tachyon" for d in dset) and not o.get("crash"):
         text = o.get("text", "")
-        for d in dset:
-            if d.sector is None or d.sector not in MONITORED:
+        for d, sec in [(d_, s_) for d_ in dset if d_.sector for s_ in ((d_.sector,) if isinstance(d_.sector, str) else d_.sector)]:
+            if sec not in MONITORED:
                 continue
-            if is_c and model == "MSSM" and o["refused"]:
-                continue        # the C interface reports only the error code / NaN when it refuses
+            if is_c and o["refused"]:
+                continue        # the C interfaces report only the error code / NaN when they refuse
             if o["refused"] and "res" not in d.paths and any("res" in e.paths for e in dset):
                 continue        # refused at the setup (resummed spectrum); the other spectrum is never built
             if o["refused"] and d.also and "tachyon" not in text:
                 continue        # refused as negative soft mass^2, the other documented rule
-            if ("%s tachyon" % d.sector) not in text:
-                fail("tachyon-not-flagged" if o["refused"] else "tachyon-not-flagged-in-result", "the %s state is tachyonic (%s) but '%s tachyon' is not reported" % (d.sector, d.doc, d.sector))
+            if ("%s tachyon" % sec) not in text:
+                fail("tachyon-not-flagged" if o["refused"] else "tachyon-not-flagged-in-result", "the %s state is tachyonic (%s) but '%s tachyon' is not reported" % (sec, d.doc, sec))
     # ---- invariants of the statement, on every run ---------------------------
     if cli:
         nonzero = o["rc"] != 0
@@ -456,7 +456,17 @@ def run(ctx):
     import time
     t0 = time.time()
     MONITORED.update(monitored_sectors())
-    realised = {d.sector for d in T.mssm_defects() if d.sector}
+    realised = {s_ for d in T.mssm_defects() + T.thdm_defects() if d.sector
+                for s_ in ((d.sector,) if isinstance(d.sector, str) else d.sector)}
+    # the realisations of the sign patterns are confirmed by textbook formulas, not by the library
+    for d in T.thdm_defects():
+        if d.pattern and not T.thdm_pattern_ok(T.apply(dict(C.thdm_gauge_points())["Q1"], (d,), HELP), d.pattern):
+            raise InfraError("THDM realisation %s does not have its sign pattern at tree level" % d.id)
+    for sty, pts in (("gm2", C.gm2_points()), ("slha", C.slha_points())):
+        for bname, base in pts:
+            for d in T.mssm_defects():
+                if d.id.endswith(":both-neg") and sty in d.styles and not T.sfermion_both_negative(T.apply(base, (d,), HELP), d.sector):
+                    raise InfraError("MSSM realisation %s on %s/%s is not (-,-) at tree level" % (d.id, sty, bname))
     ctx.note("monitored_sectors_in_source", sorted(MONITORED))
     ctx.note("monitored_sectors_without_realisation", sorted(MONITORED - realised))
     ctx.note("realised_sectors_not_in_source", sorted(realised - MONITORED))
